@@ -28,6 +28,11 @@ CLAIMED = {
    text="Structural necessary conditions decided at every site of pkg/jit: unit fields, the units map, specialisation validity and stats only under their mutexes; InvalidateCache/ClearCache/RecordDeoptimization reach an invalidation of every store that holds bytecode for the route; a specialisation is returned only through its IsValid edge; each compilation uses a compiler created in that call and no field/variable/map of the package can hold one; tier switches that select code are total.",
    note="Does not cover equivalence of tier bytecode (C03), linearizability, recompilation thresholds. Lockset receiver-insensitive. Trusted: go/types, go/ssa, guard table in c15.go.",
    ref="DESIGN.md §3 C15"),
+ "C09": dict(
+   technique="static analysis: SSA must-lockset + ordering/typestate path queries over interpreter.Future, goroutine free-variable (capture) analysis for async blocks in both engines, await-after-done guard-edge rule",
+   text="Structural necessary conditions decided at every site: Future outcome fields only under Future.mu; every settling write and close(done) is behind the already-resolved test, resolved is set and the outcome written before done closes, done closes once; no blocking channel operation under Future.mu; Await* and the VM's FutureValue readers touch the outcome only after receiving from done; the interpreter's async goroutine captures only a detached Environment; the VM's async goroutine captures no *VM and only values created in execAsync, its first deferred call closes Done and only it writes Result/Error; All stores values at their future's index; Any's shared state is under its mutex.",
+   note="Does not cover determinism under all schedules, first-settled/first-success as history properties, VM jump relocation inside embedded async bodies. Trusted: go/types, go/ssa.",
+   ref="DESIGN.md §3 C09"),
 }
 
 NA_REASONS = {}
